@@ -15,10 +15,17 @@ LANGS = [('typescript', 'ts', [], {}), ('kotlin', 'kt', ['--java-package', 'p'],
          ('scala', 'scala', ['--scala-package', 'p'], {'package': 'p'}), ('go', 'go', ['--go-package', 'p'], {'package': 'p'}), ('python', 'py', [], {})]
 
 
-def make_files(rng, k, lang, equal_names=False):
-    """k source files with distinct item names overall (unless equal_names), every kind incl. consts"""
+def make_files(rng, k, lang, equal_names=False, only=None):
+    """k source files with distinct item names overall (unless equal_names), every kind incl. consts;
+    only = restrict every file to ONE item kind (degenerate buckets: consts only, aliases only, ...)"""
     allow_const = lang in ('typescript', 'go', 'python', 'scala')
-    gen = progs.ProgGen(rng, progs.Profile(n_items=(1, 3), p_unannotated=0.0, p_nested=0.1, allow_const=allow_const, p_rename_type=0.15))
+    if only == 'const':
+        return [''.join(f'#[typeshare]\npub const K{rng.randint(0, 10 ** 6)}_{i}_{j}: u32 = {j};\n' for j in range(rng.randint(1, 2))) for i in range(k)]
+    prof = progs.Profile(n_items=(1, 3), p_unannotated=0.0, p_nested=0.1, allow_const=allow_const, p_rename_type=0.15)
+    if only is not None:
+        prof.kinds = {'struct': ['struct', 'unit_struct'], 'enum': ['unit_enum', 'alg_enum'], 'alias': ['alias', 'newtype']}[only]
+        prof.allow_const = False
+    gen = progs.ProgGen(rng, prof)
     names = progs.TYPE_IDENTS[:]
     rng.shuffle(names)
     files = []
@@ -33,7 +40,7 @@ def make_files(rng, k, lang, equal_names=False):
             it.annotated = True
             prog.items.append(it)
         src = progs.source(prog)
-        if allow_const and rng.random() < 0.6:
+        if allow_const and only is None and rng.random() < 0.6:
             src += f'\n#[typeshare]\npub const K{rng.randint(0, 10 ** 6)}_{i}: u32 = {i};\n'
         files.append(src)
     if equal_names and k >= 2:
@@ -86,7 +93,7 @@ def run(chk):
         return
     rng = chk.rng
     kmax = 5 if chk.tier == 'quick' else 6
-    ntrees = 10 if chk.tier == 'quick' else 40
+    ntrees = 24 if chk.tier == 'quick' else 80
     work = vf.tmpdir()
     jobs, meta = [], []
     trees = []
@@ -95,7 +102,15 @@ def run(chk):
         k = 2 + (t % (kmax - 1))
         multi = (t % 4 == 3)
         equal = (t % 10 == 9)
-        files = make_files(rng, k, lang, equal_names=equal)
+        only = None
+        if t % 5 == 2:
+            only = ['const', 'struct', 'enum', 'alias'][(t // 5) % 4]
+            if only == 'const' and lang not in ('typescript', 'go', 'python'):
+                only = 'alias'
+        if lang in ('typescript', 'go', 'python') and (t // 6) % 2 == 1 and not equal:
+            only = 'const'
+        files = make_files(rng, k, lang, equal_names=equal, only=only)
+        chk.count('trees_only_' + str(only))
         tree = work / f't{t}'
         crates = ['alpha', 'beta', 'gamma']
         for i, src in enumerate(files):
